@@ -41,7 +41,7 @@ L = {
          'raising callbacks inside a higher-order call: one-transition lemmas only.'),
  'C10': ('Theorems: lookup order, writes go to the top scope, scope_balanced / scopes_restored / host_scope_beneath over all runs, eval_ends_with_host_scope_only. '
          'Correspondence: scope and session-scope slices; monitors: scope leaks, zero-argument ast lambdas, re-entrant eval, mappings with __missing__.',
-         'heap-level separation of scope dictionaries from values pending.'),
+         'covered_scopes_survive_any_program (InvSep: with mutators and compound assignments, an object no value mentions changes only while it is a top scope) is relative to a host world in which no value refers to scope dictionaries.'),
  'C11': ('Theorems: history_indep_* for parse / list_names histories of any outcome, history_indep_eval, cache_transparent (C17) for cached parsers; D9 theorem. '
          'Correspondence: histories on one SqParser; monitors: fresh-parser repeat and pristine-interpreter (forked zygote) reference.', 'finding D9.'),
  'C12': ('Theorems: deepcopy_frame, copy_reaches_only_new_objects, stored_copy_is_independent, stored_copy_has_same_content (deepcopy_iso: copy and original '
@@ -49,7 +49,7 @@ L = {
          'shared host objects; monitor: reachability disjointness.', 'aliasing structure of the copy not a theorem of its own.'),
  'C13': ('Theorems: every one of the 35 non-mutating builtins preserves all existing objects; quiet_program_changes_no_host_object (over whole runs a program '
          'without mutators / compound assignments changes no pre-existing object other than scope dictionaries). Correspondence: builtin x argument matrix; snapshot monitor.',
-         'programs with mutators: receiver-only effect pending.'),
+         'programs with mutators: a step changes only top scopes and objects some value mentions (InvSep.step_sep; per entry mod_push ... mod_setitem_with_op).'),
  'C14': ('Theorems: ops_refine_dict and ops_refine_list (every operation sequence refines the mathematical dict / Python list spec, other objects untouched), one key '
          'cast everywhere, failing reads are ParserErrors. Correspondence: op sequences exhaustive to depth 2/3 + random.', 'slices of lists pending.'),
  'C15': ('Theorems: token-level insignificance (closer_irrelevant, blank statements, trailing separators / commas) through parse_iff; character level: '
